@@ -53,8 +53,10 @@ pub fn search(seed: u64, budget: &Budget, thorough: bool) -> (u64, Option<(Strin
         let (go, ge) = (*rng.pick(&[0i32, -1, -3, -5]), *rng.pick(&[-1i32, -2]));
         let k = 1 + rng.below(4) as usize; let w = rng.below(5) as usize;
         tried += 1;
+        let input = format!("sc={},{},{},{} k={} w={} x={} y={} warm={}", ms, mm, go, ge, k, w, hex(&x), hex(&y), hex(&warm));
+        note_current(&input);
         if let Err(e) = check(&x, &y, ms, mm, go, ge, k, w, &warm) {
-            return (tried, Some((format!("sc={},{},{},{} k={} w={} x={} y={} warm={}", ms, mm, go, ge, k, w, hex(&x), hex(&y), hex(&warm)), e)));
+            return (tried, Some((input, e)));
         }
     }
     (tried, None)
